@@ -9,50 +9,17 @@ All theorems quantify over *every* operation history `ops : List Op`
 -/
 import Mqtt.Proofs.AckQueue
 
+set_option linter.unusedSimpArgs false
+
 namespace Mqtt.Properties.C13
 
-open Mqtt.Generated Mqtt.Model.AckQueue Mqtt.Proofs.AckQueue
+open Mqtt.Generated Mqtt.Model.AckQueue Mqtt.Proofs.AckQueue Mqtt.Iface.AckQ
 open Mqtt.Spec
 
-/-! ## The specification run (FIFO list semantics of each operation) -/
+/-! The specification (`Spec/Fifo.lean`: `Fifo.step`, `Fifo.run`) is written from
+the protocol and does not mention the regenerated tables. -/
 
-inductive SOut where
-  | ok (b : Bool)
-  | released (l : List Fifo.Entry)
-deriving DecidableEq, Repr
-
-def regOpt (s : Fifo.S) (mtype id : Nat) (enc : Option (List UInt8)) (tag : Nat) : Fifo.S :=
-  match enc with
-  | some b => Fifo.register s ⟨mtype, 0, id, b, [], tag⟩
-  | none => s            -- a request that cannot be serialised is not registered
-
-def specStep (s : Fifo.S) : Op → Fifo.S × SOut
-  | .wait (.publish qos id enc) tag =>
-      if qos == 0 then (s, .ok false) else (regOpt s tPUBLISH id enc tag, .ok true)
-  | .wait (.subscribe id enc) tag => (regOpt s tSUBSCRIBE id enc tag, .ok true)
-  | .wait (.unsubscribe id enc) tag => (regOpt s tUNSUBSCRIBE id enc tag, .ok true)
-  | .wait (.pingreq enc) tag => ({ s with ping := some ⟨tPINGREQ, 0, 0, enc, [], tag⟩ }, .ok true)
-  | .wait .other _ => (s, .ok false)
-  | .ack t id bytes =>
-      if ackIdTypes.contains t then (Fifo.ackId s t id bytes, .ok true)
-      else if t == ackPingType then
-        ({ s with ping := s.ping.map (fun e => { e with state := tPINGRESP, ack := bytes }) }, .ok true)
-      else (s, .ok false)
-  | .acked =>
-      let pingDone := match s.ping with
-        | some e => e.state == tPINGRESP
-        | none => false
-      let s1 : Fifo.S := if pingDone then { s with ping := none } else s
-      let pl := if pingDone then s.ping.toList else []
-      let (s2, l) := Fifo.collect terminal s1
-      (s2, .released (pl ++ l))
-
-def specRun (s : Fifo.S) : List Op → Fifo.S × List SOut
-  | [] => (s, [])
-  | op :: ops =>
-    let (s1, o) := specStep s op
-    let (s2, os) := specRun s1 ops
-    (s2, o :: os)
+abbrev SOut := Fifo.SOut
 
 def outAbs : Out → SOut
   | .ok b => .ok b
@@ -68,45 +35,47 @@ theorem fullInv_init : FullInv init := ⟨inv_init, by unfold PingOk init; rw [n
 /-- One step: invariant preserved, output equal, abstraction commutes. -/
 theorem C13_step_refines (q : Q) (hq : FullInv q) (op : Op) :
     FullInv (step q op).1 ∧
-    abs (step q op).1 = (specStep (abs q) op).1 ∧
-    outAbs (step q op).2 = (specStep (abs q) op).2 := by
+    abs (step q op).1 = (Fifo.step (abs q) op).1 ∧
+    outAbs (step q op).2 = (Fifo.step (abs q) op).2 := by
   obtain ⟨h, hp⟩ := hq
   cases op with
   | wait m tag =>
     cases m with
     | publish qos id enc =>
-      simp only [step, Q.wait, specStep]
+      simp only [step, Q.wait, Fifo.step]
       by_cases hq : (qos == 0) = true
       · simp [hq, h, hp, FullInv, outAbs]
       · simp only [hq, Bool.false_eq_true, ↓reduceIte]
         have hpi : PingOk (q.insert tPUBLISH id enc tag) := by
           unfold PingOk; rw [insert_ping]; exact hp
         cases enc with
-        | none => have := insert_none_refines h tPUBLISH id tag; simp [this, hpi, FullInv, regOpt, outAbs]
-        | some b => have := insert_refines h tPUBLISH id b tag; simp [this, hpi, FullInv, regOpt, outAbs]
+        | none => have := insert_none_refines h tPUBLISH id tag; simp only [tPUBLISH, tSUBSCRIBE, tUNSUBSCRIBE] at this hpi; simp [this, hpi, FullInv, Fifo.regOpt, outAbs, tPUBLISH, tSUBSCRIBE, tUNSUBSCRIBE, Fifo.PUBLISH, Fifo.SUBSCRIBE, Fifo.UNSUBSCRIBE]
+        | some b => have := insert_refines h tPUBLISH id b tag; simp only [tPUBLISH, tSUBSCRIBE, tUNSUBSCRIBE] at this hpi; simp [this, hpi, FullInv, Fifo.regOpt, outAbs, tPUBLISH, tSUBSCRIBE, tUNSUBSCRIBE, Fifo.PUBLISH, Fifo.SUBSCRIBE, Fifo.UNSUBSCRIBE]
     | subscribe id enc =>
-      simp only [step, Q.wait, specStep]
+      simp only [step, Q.wait, Fifo.step]
       have hpi : PingOk (q.insert tSUBSCRIBE id enc tag) := by
         unfold PingOk; rw [insert_ping]; exact hp
       cases enc with
-      | none => have := insert_none_refines h tSUBSCRIBE id tag; simp [this, hpi, FullInv, regOpt, outAbs]
-      | some b => have := insert_refines h tSUBSCRIBE id b tag; simp [this, hpi, FullInv, regOpt, outAbs]
+      | none => have := insert_none_refines h tSUBSCRIBE id tag; simp only [tPUBLISH, tSUBSCRIBE, tUNSUBSCRIBE] at this hpi; simp [this, hpi, FullInv, Fifo.regOpt, outAbs, tPUBLISH, tSUBSCRIBE, tUNSUBSCRIBE, Fifo.PUBLISH, Fifo.SUBSCRIBE, Fifo.UNSUBSCRIBE]
+      | some b => have := insert_refines h tSUBSCRIBE id b tag; simp only [tPUBLISH, tSUBSCRIBE, tUNSUBSCRIBE] at this hpi; simp [this, hpi, FullInv, Fifo.regOpt, outAbs, tPUBLISH, tSUBSCRIBE, tUNSUBSCRIBE, Fifo.PUBLISH, Fifo.SUBSCRIBE, Fifo.UNSUBSCRIBE]
     | unsubscribe id enc =>
-      simp only [step, Q.wait, specStep]
+      simp only [step, Q.wait, Fifo.step]
       have hpi : PingOk (q.insert tUNSUBSCRIBE id enc tag) := by
         unfold PingOk; rw [insert_ping]; exact hp
       cases enc with
-      | none => have := insert_none_refines h tUNSUBSCRIBE id tag; simp [this, hpi, FullInv, regOpt, outAbs]
-      | some b => have := insert_refines h tUNSUBSCRIBE id b tag; simp [this, hpi, FullInv, regOpt, outAbs]
+      | none => have := insert_none_refines h tUNSUBSCRIBE id tag; simp only [tPUBLISH, tSUBSCRIBE, tUNSUBSCRIBE] at this hpi; simp [this, hpi, FullInv, Fifo.regOpt, outAbs, tPUBLISH, tSUBSCRIBE, tUNSUBSCRIBE, Fifo.PUBLISH, Fifo.SUBSCRIBE, Fifo.UNSUBSCRIBE]
+      | some b => have := insert_refines h tUNSUBSCRIBE id b tag; simp only [tPUBLISH, tSUBSCRIBE, tUNSUBSCRIBE] at this hpi; simp [this, hpi, FullInv, Fifo.regOpt, outAbs, tPUBLISH, tSUBSCRIBE, tUNSUBSCRIBE, Fifo.PUBLISH, Fifo.SUBSCRIBE, Fifo.UNSUBSCRIBE]
     | pingreq enc =>
-      simp only [step, Q.wait, specStep, outAbs, and_true]
+      simp only [step, Q.wait, Fifo.step, outAbs, and_true]
       refine ⟨⟨⟨h.pow, h.mask, h.len, h.cnt, h.head, h.tail, h.sound, h.compl⟩, ?_⟩, ?_⟩
       · intro h0; rfl
-      · simp [abs, window, slot, Q.get, absPing, toEntry]
-    | other => simp [step, Q.wait, specStep, h, hp, FullInv, outAbs]
+      · simp [abs, window, slot, Q.get, absPing, toEntry, tPINGREQ, Fifo.PINGREQ]
+    | other => simp [step, Q.wait, Fifo.step, h, hp, FullInv, outAbs]
   | ack t id bytes =>
-    simp only [step, Q.ack, specStep]
-    by_cases ht : ackIdTypes.contains t = true
+    simp only [step, Q.ack, Fifo.step, facts_idack]
+    have hpt' : (t == ackPingType) = (t == Fifo.PINGRESP) := rfl
+    rw [hpt']
+    by_cases ht : Fifo.isIdAck t = true
     · simp only [ht, ↓reduceIte]
       cases hget : emapGet q.emap id with
       | none => simp [h, hp, FullInv, ackId_unknown h t id bytes hget, outAbs]
@@ -115,35 +84,37 @@ theorem C13_step_refines (q : Q) (hq : FullInv q) (op : Op) :
         simp only at this
         refine ⟨⟨this.1, hp⟩, this.2, rfl⟩
     · simp only [ht, Bool.false_eq_true, ↓reduceIte]
-      by_cases hpt : (t == ackPingType) = true
+      by_cases hpt : (t == Fifo.PINGRESP) = true
       · simp only [hpt, ↓reduceIte]
         by_cases hm : (q.ping.mtype == tPINGREQ) = true
         · simp only [hm, ↓reduceIte, outAbs, and_true]
           have hm' : q.ping.mtype = tPINGREQ := by simpa using hm
           refine ⟨⟨⟨h.pow, h.mask, h.len, h.cnt, h.head, h.tail, h.sound, h.compl⟩, ?_⟩, ?_⟩
           · intro _; exact hm'
-          · simp [abs, window, slot, Q.get, absPing, toEntry, hm']
+          · simp [abs, window, slot, Q.get, absPing, toEntry, hm', tPINGRESP, Fifo.PINGRESP]
         · have hm' : ¬ q.ping.mtype = tPINGREQ := by simpa using hm
           simp [hm, h, hp, FullInv, outAbs, abs, absPing, hm']
       · simp [hpt, h, hp, FullInv, outAbs]
   | acked =>
     obtain ⟨a, b, c, d⟩ := acked_refines h hp
-    simp only [step, specStep, outAbs]
+    simp only [step, Fifo.step, outAbs]
+    have e1 : tPINGRESP = 13 := rfl
+    rw [e1] at c d
     refine ⟨⟨a, b⟩, ?_, ?_⟩
     · rw [c]
-      by_cases hs : q.ping.state = tPINGRESP
-      · have hm := hp hs
-        simp [hs, abs, absPing, hm, toEntry, Fifo.collect]
-      · by_cases hm : q.ping.mtype = tPINGREQ
-        · simp [hs, abs, absPing, hm, toEntry, Fifo.collect]
-        · simp [hs, abs, absPing, hm, Fifo.collect]
+      by_cases hs : q.ping.state = 13
+      · have hm : q.ping.mtype = 12 := hp hs
+        simp [hs, abs, absPing, hm, toEntry, Fifo.collect, tPINGREQ, Fifo.PINGRESP]
+      · by_cases hm : q.ping.mtype = 12
+        · simp [hs, abs, absPing, hm, toEntry, Fifo.collect, tPINGREQ, Fifo.PINGRESP]
+        · simp [hs, abs, absPing, hm, Fifo.collect, tPINGREQ, Fifo.PINGRESP]
     · rw [d]
-      by_cases hs : q.ping.state = tPINGRESP
-      · have hm := hp hs
-        simp [hs, abs, absPing, hm, toEntry, Fifo.collect]
-      · by_cases hm : q.ping.mtype = tPINGREQ
-        · simp [hs, abs, absPing, hm, toEntry, Fifo.collect]
-        · simp [hs, abs, absPing, hm, Fifo.collect]
+      by_cases hs : q.ping.state = 13
+      · have hm : q.ping.mtype = 12 := hp hs
+        simp [hs, abs, absPing, hm, toEntry, Fifo.collect, tPINGREQ, Fifo.PINGRESP]
+      · by_cases hm : q.ping.mtype = 12
+        · simp [hs, abs, absPing, hm, toEntry, Fifo.collect, tPINGREQ, Fifo.PINGRESP]
+        · simp [hs, abs, absPing, hm, Fifo.collect, tPINGREQ, Fifo.PINGRESP]
 
 /-- **C13, refinement form.**  For every history of register / acknowledge /
 collect operations, of any length, over any identifiers, the code-shaped queue
@@ -152,21 +123,21 @@ outputs of the FIFO list and ends in a state whose abstraction is the FIFO
 list's state. -/
 theorem C13_refines (q : Q) (hq : FullInv q) (ops : List Op) :
     FullInv (run q ops).1 ∧
-    abs (run q ops).1 = (specRun (abs q) ops).1 ∧
-    (run q ops).2.map outAbs = (specRun (abs q) ops).2 := by
+    abs (run q ops).1 = (Fifo.run (abs q) ops).1 ∧
+    (run q ops).2.map outAbs = (Fifo.run (abs q) ops).2 := by
   induction ops generalizing q with
   | nil => exact ⟨hq, rfl, rfl⟩
   | cons op ops ih =>
     obtain ⟨h1, h2, h3⟩ := C13_step_refines q hq op
     obtain ⟨i1, i2, i3⟩ := ih (step q op).1 h1
-    simp only [run, specRun]
+    simp only [run, Fifo.run]
     rw [← h2]
     exact ⟨i1, i2, by simp [h3, i3]⟩
 
 /-- … in particular from the queue a session creates. -/
 theorem C13_refines_init (ops : List Op) :
-    abs (run init ops).1 = (specRun Fifo.empty ops).1 ∧
-    (run init ops).2.map outAbs = (specRun Fifo.empty ops).2 := by
+    abs (run init ops).1 = (Fifo.run Fifo.empty ops).1 ∧
+    (run init ops).2.map outAbs = (Fifo.run Fifo.empty ops).2 := by
   have := C13_refines init fullInv_init ops
   rw [abs_init] at this
   exact this.2
@@ -179,9 +150,9 @@ def key (e : Fifo.Entry) : Nat × Nat × List UInt8 × Nat := (e.mtype, e.id, e.
 
 /-- the request a `Wait` call tries to put in flight, if any -/
 def reqOf : WaitMsg → Nat → Option Fifo.Entry
-  | .publish qos id (some b), tag => if qos == 0 then none else some ⟨tPUBLISH, 0, id, b, [], tag⟩
-  | .subscribe id (some b), tag => some ⟨tSUBSCRIBE, 0, id, b, [], tag⟩
-  | .unsubscribe id (some b), tag => some ⟨tUNSUBSCRIBE, 0, id, b, [], tag⟩
+  | .publish qos id (some b), tag => if qos == 0 then none else some ⟨Fifo.PUBLISH, 0, id, b, [], tag⟩
+  | .subscribe id (some b), tag => some ⟨Fifo.SUBSCRIBE, 0, id, b, [], tag⟩
+  | .unsubscribe id (some b), tag => some ⟨Fifo.UNSUBSCRIBE, 0, id, b, [], tag⟩
   | _, _ => none
 
 /-- requests newly put in flight by one operation -/
@@ -199,21 +170,21 @@ def stepReleased (s : Fifo.S) : Op → List Fifo.Entry
 
 def accepted (s : Fifo.S) : List Op → List Fifo.Entry
   | [] => []
-  | op :: ops => stepAccepted s op ++ accepted (specStep s op).1 ops
+  | op :: ops => stepAccepted s op ++ accepted (Fifo.step s op).1 ops
 
 def released (s : Fifo.S) : List Op → List Fifo.Entry
   | [] => []
-  | op :: ops => stepReleased s op ++ released (specStep s op).1 ops
+  | op :: ops => stepReleased s op ++ released (Fifo.step s op).1 ops
 
 theorem specRun_cons (s : Fifo.S) (op : Op) (ops : List Op) :
-    (specRun s (op :: ops)).1 = (specRun (specStep s op).1 ops).1 := rfl
+    (Fifo.run s (op :: ops)).1 = (Fifo.run (Fifo.step s op).1 ops).1 := rfl
 
 theorem specAcked_q (s : Fifo.S) :
-    (specStep s .acked).1.q = s.q.dropWhile (fun e => terminal e.state) := by
-  simp only [specStep, Fifo.collect]
+    (Fifo.step s .acked).1.q = s.q.dropWhile (fun e => terminal e.state) := by
+  simp only [Fifo.step, Fifo.collect]
   cases s.ping with
   | none => simp
-  | some e => by_cases h : (e.state == tPINGRESP) = true <;> simp [h]
+  | some e => by_cases h : (e.state == Fifo.PINGRESP) = true <;> simp [h]
 
 theorem mem_takeWhile {α} (p : α → Bool) (l : List α) (a : α) (h : a ∈ l.takeWhile p) : p a = true := by
   induction l with
@@ -227,35 +198,35 @@ theorem mem_takeWhile {α} (p : α → Bool) (l : List α) (a : α) (h : a ∈ l
     · simp at h
 
 theorem step_conservation (s : Fifo.S) (op : Op) :
-    (stepReleased s op ++ (specStep s op).1.q).map key = (s.q ++ stepAccepted s op).map key := by
+    (stepReleased s op ++ (Fifo.step s op).1.q).map key = (s.q ++ stepAccepted s op).map key := by
   cases op with
   | wait m tag =>
     cases m with
     | publish qos id enc =>
       cases enc with
-      | none => simp only [stepReleased, stepAccepted, reqOf, specStep]; split <;> simp [regOpt]
+      | none => simp only [stepReleased, stepAccepted, reqOf, Fifo.step]; split <;> simp [Fifo.regOpt]
       | some b =>
-        simp only [stepReleased, stepAccepted, reqOf, specStep]
+        simp only [stepReleased, stepAccepted, reqOf, Fifo.step]
         by_cases hq : (qos == 0) = true
         · simp [hq]
-        · simp only [hq, Bool.false_eq_true, ↓reduceIte, regOpt, Fifo.register]
+        · simp only [hq, Bool.false_eq_true, ↓reduceIte, Fifo.regOpt, Fifo.register]
           split <;> simp
     | subscribe id enc =>
       cases enc with
-      | none => simp [stepReleased, stepAccepted, reqOf, specStep, regOpt]
+      | none => simp [stepReleased, stepAccepted, reqOf, Fifo.step, Fifo.regOpt]
       | some b =>
-        simp only [stepReleased, stepAccepted, reqOf, specStep, regOpt, Fifo.register]
+        simp only [stepReleased, stepAccepted, reqOf, Fifo.step, Fifo.regOpt, Fifo.register]
         split <;> simp
     | unsubscribe id enc =>
       cases enc with
-      | none => simp [stepReleased, stepAccepted, reqOf, specStep, regOpt]
+      | none => simp [stepReleased, stepAccepted, reqOf, Fifo.step, Fifo.regOpt]
       | some b =>
-        simp only [stepReleased, stepAccepted, reqOf, specStep, regOpt, Fifo.register]
+        simp only [stepReleased, stepAccepted, reqOf, Fifo.step, Fifo.regOpt, Fifo.register]
         split <;> simp
-    | pingreq enc => simp [stepReleased, stepAccepted, reqOf, specStep]
-    | other => simp [stepReleased, stepAccepted, reqOf, specStep]
+    | pingreq enc => simp [stepReleased, stepAccepted, reqOf, Fifo.step]
+    | other => simp [stepReleased, stepAccepted, reqOf, Fifo.step]
   | ack t id bytes =>
-    simp only [stepReleased, stepAccepted, specStep, List.nil_append, List.append_nil]
+    simp only [stepReleased, stepAccepted, Fifo.step, List.nil_append, List.append_nil]
     split
     · simp only [Fifo.ackId, List.map_map]
       apply List.map_congr_left
@@ -275,14 +246,14 @@ every accepted request is handed back at most once, requests are handed back
 in the order they were registered, none is lost, none is invented, and the
 request bytes are identical to what was registered. -/
 theorem C13_exactly_once_fifo (s : Fifo.S) (ops : List Op) :
-    (released s ops ++ (specRun s ops).1.q).map key = (s.q ++ accepted s ops).map key := by
+    (released s ops ++ (Fifo.run s ops).1.q).map key = (s.q ++ accepted s ops).map key := by
   induction ops generalizing s with
-  | nil => simp [released, accepted, specRun]
+  | nil => simp [released, accepted, Fifo.run]
   | cons op ops ih =>
     rw [specRun_cons]
     simp only [released, accepted]
     have h1 := step_conservation s op
-    have h2 := ih (specStep s op).1
+    have h2 := ih (Fifo.step s op).1
     simp only [List.map_append] at *
     rw [List.append_assoc, h2, ← List.append_assoc, h1, List.append_assoc]
 
@@ -295,7 +266,7 @@ theorem C13_released_terminal (s : Fifo.S) (op : Op) :
 
 /-- … and all of them: after a collect the oldest request left is not terminal. -/
 theorem C13_release_eager (s : Fifo.S) :
-    ∀ e, (specStep s .acked).1.q.head? = some e → terminal e.state = false := by
+    ∀ e, (Fifo.step s .acked).1.q.head? = some e → terminal e.state = false := by
   intro e he
   rw [specAcked_q] at he
   have := List.head?_dropWhile_not (fun e => terminal e.state) s.q
@@ -306,20 +277,20 @@ theorem C13_release_eager (s : Fifo.S) :
 identifier: that request takes the acknowledgement's type and a byte-identical
 copy of it; every other request is untouched. -/
 theorem C13_ack_effect (s : Fifo.S) (t id : Nat) (bytes : List UInt8)
-    (ht : ackIdTypes.contains t = true) :
-    (specStep s (.ack t id bytes)).1.ping = s.ping ∧
-    (specStep s (.ack t id bytes)).1.q.length = s.q.length ∧
+    (ht : Fifo.isIdAck t = true) :
+    (Fifo.step s (.ack t id bytes)).1.ping = s.ping ∧
+    (Fifo.step s (.ack t id bytes)).1.q.length = s.q.length ∧
     ∀ (i : Nat) (e : Fifo.Entry), s.q[i]? = some e →
-      (specStep s (.ack t id bytes)).1.q[i]? =
+      (Fifo.step s (.ack t id bytes)).1.q[i]? =
         some (if e.id = id then { e with state := t, ack := bytes } else e) := by
-  simp only [specStep, ht, ↓reduceIte, Fifo.ackId, List.length_map, List.getElem?_map, true_and]
+  simp only [Fifo.step, ht, ↓reduceIte, Fifo.ackId, List.length_map, List.getElem?_map, true_and]
   intro i e he
   rw [he]; simp
 
 /-- Acknowledgements for identifiers that are not in flight change nothing —
 stated on the code-shaped queue itself: the whole state is unchanged. -/
 theorem C13_unknown_ack_noop (q : Q) (hq : FullInv q) (t id : Nat) (bytes : List UInt8)
-    (ht : ackIdTypes.contains t = true)
+    (ht : Fifo.isIdAck t = true)
     (hid : ∀ e ∈ (abs q).q, e.id ≠ id) :
     (step q (.ack t id bytes)).1 = q := by
   have hany := any_id_iff hq.1 id
@@ -330,19 +301,18 @@ theorem C13_unknown_ack_noop (q : Q) (hq : FullInv q) (t id : Nat) (bytes : List
     cases h : emapGet q.emap id with
     | none => rfl
     | some i => rw [h] at hany; cases hany
-  have ht' : t ∈ ackIdTypes := by simpa using ht
+  have ht' : t ∈ ackIdTypes := by rw [← facts_idack] at ht; simpa using ht
   simp [step, Q.ack, ht', hget]
 
-/-- The release set the code uses (regenerated from `Acked`'s switch) is the
-set of MQTT 3.1.1 exchange-ending acknowledgements; in particular PUBREC, which
+/-- The tables the code switches on (regenerated from `Ack`'s and `Acked`'s
+`switch` statements on every run) are the protocol's: identifier-carrying
+acknowledgements, and the exchange-ending ones — in particular PUBREC, which
 only ends the first half of a QoS 2 exchange, never releases a request. -/
-theorem C13_terminal_set :
-    (∀ t, terminal t = true ↔ t = tPUBACK ∨ t = tPUBREL ∨ t = tPUBCOMP ∨ t = tSUBACK ∨ t = tUNSUBACK) ∧
-    terminal tPUBREC = false ∧ terminal 0 = false := by
-  refine ⟨?_, by decide, by decide⟩
-  intro t
-  simp only [terminal, ackedReleaseStates, tPUBACK, tPUBREL, tPUBCOMP, tSUBACK, tUNSUBACK,
-    List.contains_iff_mem, List.mem_cons, List.not_mem_nil, or_false]
+theorem C13_tables_are_protocol :
+    (∀ t, ackedReleaseStates.contains t = Fifo.terminal t) ∧
+    (∀ t, ackIdTypes.contains t = Fifo.isIdAck t) ∧
+    Fifo.terminal Fifo.PUBREC = false ∧ Fifo.terminal 0 = false :=
+  ⟨facts_terminal, facts_idack, by decide, by decide⟩
 
 /-! ## 3. Non-vacuity: the hypotheses are met by non-trivial reachable states -/
 
@@ -350,13 +320,13 @@ theorem C13_terminal_set :
 first two acknowledged out of order, then collected. -/
 def demoOps : List Op :=
   (List.range 20).map (fun i => Op.wait (.publish 1 (i + 1) (some [0x32, i.toUInt8])) i) ++
-  [.ack tPUBACK 2 [0x40, 2, 0, 2], .acked, .ack tPUBACK 1 [0x40, 2, 0, 1], .acked]
+  [.ack 4 2 [0x40, 2, 0, 2], .acked, .ack 4 1 [0x40, 2, 0, 1], .acked]
 
 example : (run init demoOps).1.size = 32 ∧ (run init demoOps).1.count = 18 ∧
     (run init demoOps).2.drop 20 =
       [.ok true, .released [], .ok true,
-       .released [⟨tPUBLISH, tPUBACK, 1, [0x32, 0], [0x40, 2, 0, 1], 0⟩,
-                  ⟨tPUBLISH, tPUBACK, 2, [0x32, 1], [0x40, 2, 0, 2], 1⟩]] := by
+       .released [⟨3, 4, 1, [0x32, 0], [0x40, 2, 0, 1], 0⟩,
+                  ⟨3, 4, 2, [0x32, 1], [0x40, 2, 0, 2], 1⟩]] := by
   decide +kernel
 
 example : FullInv (run init demoOps).1 := (C13_refines init fullInv_init demoOps).1
